@@ -723,9 +723,13 @@ def rule_cmp(program, ctx, prop=P, rid="C01.cmp"):
 # the tag index is written exactly: name and value unmodified, for every one-character name (shared with C02/C05/C17)
 
 
-def _atom_ok(e, T):
+def _atom_ok(e, T, pol=True):
     """guard literal allowed around the indexing of a tag: presence/shape tests of the tag itself"""
     src = ast.unparse(e)
+    if not pol and isinstance(e, ast.Compare) and len(e.ops) == 1 and ast.unparse(e.left) == f"len({T})" and isinstance(e.comparators[0], ast.Constant):
+        # `not (len(tag) < 2)` is `len(tag) >= 2`
+        op, v = e.ops[0], e.comparators[0].value
+        return (isinstance(op, ast.Lt) and v == 2) or (isinstance(op, ast.LtE) and v == 1)
     if isinstance(e, ast.BoolOp):
         return all(_atom_ok(v, T) for v in e.values)
     if isinstance(e, ast.UnaryOp) and isinstance(e.op, ast.Not):
@@ -801,7 +805,7 @@ def rule_tagindex(program, ctx, prop=P, rid="C01.tagindex"):
                     ctx.bad(finding_at(prop, rid, n, f"the indexed tag value is `{b}`, a transformation of `{T}[1]`: an equality query for the stored (shortened / folded) text returns an event "
                                        "whose tag value is a different string, and the full value is no longer found", text="value"))
                 atoms = [(rd(e), pol) for e, pol in guard_atoms(n, stop=l)]
-                badatoms = [(e, pol) for e, pol in atoms if not _atom_ok(e, T)]
+                badatoms = [(e, pol) for e, pol in atoms if not _atom_ok(e, T, pol)]
                 if badatoms:
                     good = False
                     e, pol = badatoms[0]
